@@ -1,6 +1,7 @@
 (* Props/C05.v — Compaction and checkpoint are invisible.
    Only statements, `exact`, and Print Assumptions. *)
-From NDB Require Import Engine.Graph Engine.Model Engine.Known Engine.Witness Engine.Compact_proofs.
+From Coq Require Import Permutation.
+From NDB Require Import Engine.Graph Engine.Model Engine.Known Engine.Witness Engine.Compact_proofs Engine.Compact_reads_proofs.
 
 (* compaction / checkpoint changes no read now ... *)
 Definition C05_now_statement : Prop :=
@@ -37,3 +38,20 @@ Definition C05_nodes_partial_statement : Prop :=
 Theorem C05_nodes_partial : C05_nodes_partial_statement.
 Proof. intros s H; split; [exact (compact_nodes s H) | intros n ext; exact (compact_labels_ids s n ext)]. Qed.
 Print Assumptions C05_nodes_partial.
+
+(* conditional theorem over ALL engine states (reachable or not) whose published runs hold no node /
+   relationship tombstone and no property-removal marker — the executable `compactable_b`, i.e. no
+   committed delete / removal since the last compaction: compaction (= checkpoint) changes no read
+   except possibly the two whole-map reads *)
+Definition C05_compact_partial_statement : Prop :=
+  forall s, compactable_b s = true ->
+    m_nodes (compact s) = m_nodes s /\
+    (forall n, Permutation (m_out (compact s) n) (m_out s n)) /\
+    (forall n, Permutation (m_in (compact s) n) (m_in s n)) /\
+    (forall n k, m_nprop (compact s) n k = m_nprop s n k) /\
+    (forall e k, m_eprop (compact s) e k = m_eprop s e k) /\
+    (forall n, m_labels (compact s) n = m_labels s n) /\ (forall n, m_ext (compact s) n = m_ext s n) /\
+    (forall ext, m_lookup (compact s) ext = m_lookup s ext).
+Theorem C05_compact_partial : C05_compact_partial_statement.
+Proof. intros s H. exact (compact_same_reads s (compactable_b_ok s H)). Qed.
+Print Assumptions C05_compact_partial.
